@@ -751,7 +751,7 @@ PLAN = {
     "C03": [("cap", 60, 600), ("fit", 60, 600), ("buf", 40, 500), ("evt", 30, 300), ("mixed", 50, 600), ("list", 20, 300), ("num", 20, 300)],
     "C04": [("num", 120, 2000), ("lines", 30, 300), ("mixed", 20, 200)],
     "C05": [("buf", 120, 2000), ("lines", 30, 300), ("mixed", 20, 200)],
-    "C06": [("cap", 100, 1200), ("lines", 30, 300), ("ret", 30, 300), ("mixed", 20, 200)],
+    "C06": [("cap", 100, 1200), ("lines", 30, 300), ("ret", 80, 600), ("mixed", 20, 200)],
     "C07": [("access", 60, 800), ("fit", 100, 1500), ("lines", 40, 400), ("mixed", 20, 200)],
     "C08": [("access", 100, 1200), ("woevt", 40, 500), ("lines", 30, 300), ("mixed", 20, 200)],
     "C09": [("lines", 100, 1200), ("table", 40, 400), ("flagmid", 40, 500), ("tabevt", 20, 300), ("mixed", 30, 300)],
